@@ -342,6 +342,13 @@ func (g *gen) litNoVar(t *x.Ty, nullable bool, depth int) *x.Val {
 			// single value where a list is expected (list input coercion); a variable of the item
 			// type would not be a valid use there
 			g.flag("lit_listcoerce")
+			if t.Of.StripNN().K == 1 {
+				// [[Int]] written as [..]: every item is itself coerced to a list, and a variable of the
+				// scalar type is no valid use in a [Int] position -- no variables inside
+				save := g.pNested
+				g.pNested = 0
+				defer func() { g.pNested = save }()
+			}
 			return g.litNoVar(t.Of, false, depth+1)
 		}
 		out := &x.Val{K: "list"}
